@@ -14,7 +14,7 @@ from codemodder.registry import load_registered_codemods
 from vlib.core import fin
 
 _CM = {c.id: c for c in load_registered_codemods().codemods}
-SOURCES = {'invert-boolean-check': 'a, b = 1, 2\nr1 = not a == b\nr2 = not a < b\nr3 = not a != b\n', 'combine-startswith-endswith': "x = 'abc'\nr1 = x.startswith('a') or x.startswith('b')\nr2 = x.endswith('a') or x.endswith('b')\nr3 = x.startswith('c') or x.startswith('d')\n", 'combine-isinstance-issubclass': 'x = 1\nr1 = isinstance(x, str) or isinstance(x, bytes)\nr2 = isinstance(x, int) or isinstance(x, float)\nr3 = issubclass(int, str) or issubclass(int, bytes)\n', 'use-set-literal': 'x = 1\ns1 = set([1, 2])\ns2 = set([3])\ns3 = set([x, 4])\n', 'use-generator': 'x = [1]\nr1 = any([i for i in x])\nr2 = all([i for i in x])\nr3 = sum([i for i in x])\n', 'remove-unnecessary-f-str': 'x = 1\ns1 = f"hello"\ns2 = f\'world\'\ns3 = f"again"\n', 'fix-empty-sequence-comparison': 'x = [1]\nr1 = 1 if x == [] else 2\nr2 = 1 if x != [] else 2\nr3 = 1 if x == () else 2\n', 'literal-or-new-object-identity': 'x = 1\nr1 = x is [1]\nr2 = x is (1, 2)\nr3 = x is not [2]\n', 'numpy-nan-equality': 'import numpy as np\na = 1\nr1 = a == np.nan\nr2 = a != np.nan\nr3 = np.nan == a\n', 'exception-without-raise': "x = 1\nValueError\nTypeError('a')\nKeyError()\n", 'str-concat-in-sequence-literals': "x = 1\nl1 = ['a' 'b', 'c']\nl2 = ['d', 'e' 'f']\nl3 = ('g' 'h', 'i')\n", 'subprocess-shell-false': "import subprocess\ncmd = 'ls'\nsubprocess.run(cmd, shell=True)\nsubprocess.call(cmd, shell=True)\nsubprocess.check_output(cmd, shell=True)\n", 'fix-math-isclose': 'import math\na = 1.0\nr1 = math.isclose(a, 0)\nr2 = math.isclose(0, a)\nr3 = math.isclose(a, 0.0)\n', 'fix-async-task-instantiation': 'import asyncio\nasync def c(): pass\nasync def m():\n    t1 = asyncio.Task(c())\n    t2 = asyncio.Task(c())\n    t3 = asyncio.Task(c())\n', 'fix-mutable-params': 'x = 1\ndef f1(a=[]): pass\ndef f2(a={}): pass\ndef f3(a=[1]): pass\n', 'replace-flask-send-file': "import flask\nname = 'x'\nflask.send_file(name)\nflask.send_file('a/' + name)\nflask.send_file(name + '.txt')\n"}
+SOURCES = {'unused-imports': 'from os import (\n    path,\n    sep,\n    getcwd,\n)\nprint(sep)\n', 'invert-boolean-check': 'a, b = 1, 2\nr1 = not a == b\nr2 = not a < b\nr3 = not a != b\n', 'combine-startswith-endswith': "x = 'abc'\nr1 = x.startswith('a') or x.startswith('b')\nr2 = x.endswith('a') or x.endswith('b')\nr3 = x.startswith('c') or x.startswith('d')\n", 'combine-isinstance-issubclass': 'x = 1\nr1 = isinstance(x, str) or isinstance(x, bytes)\nr2 = isinstance(x, int) or isinstance(x, float)\nr3 = issubclass(int, str) or issubclass(int, bytes)\n', 'use-set-literal': 'x = 1\ns1 = set([1, 2])\ns2 = set([3])\ns3 = set([x, 4])\n', 'use-generator': 'x = [1]\nr1 = any([i for i in x])\nr2 = all([i for i in x])\nr3 = sum([i for i in x])\n', 'remove-unnecessary-f-str': 'x = 1\ns1 = f"hello"\ns2 = f\'world\'\ns3 = f"again"\n', 'fix-empty-sequence-comparison': 'x = [1]\nr1 = 1 if x == [] else 2\nr2 = 1 if x != [] else 2\nr3 = 1 if x == () else 2\n', 'literal-or-new-object-identity': 'x = 1\nr1 = x is [1]\nr2 = x is (1, 2)\nr3 = x is not [2]\n', 'numpy-nan-equality': 'import numpy as np\na = 1\nr1 = a == np.nan\nr2 = a != np.nan\nr3 = np.nan == a\n', 'exception-without-raise': "x = 1\nValueError\nTypeError('a')\nKeyError()\n", 'str-concat-in-sequence-literals': "x = 1\nl1 = ['a' 'b', 'c']\nl2 = ['d', 'e' 'f']\nl3 = ('g' 'h', 'i')\n", 'subprocess-shell-false': "import subprocess\ncmd = 'ls'\nsubprocess.run(cmd, shell=True)\nsubprocess.call(cmd, shell=True)\nsubprocess.check_output(cmd, shell=True)\n", 'fix-math-isclose': 'import math\na = 1.0\nr1 = math.isclose(a, 0)\nr2 = math.isclose(0, a)\nr3 = math.isclose(a, 0.0)\n', 'fix-async-task-instantiation': 'import asyncio\nasync def c(): pass\nasync def m():\n    t1 = asyncio.Task(c())\n    t2 = asyncio.Task(c())\n    t3 = asyncio.Task(c())\n', 'fix-mutable-params': 'x = 1\ndef f1(a=[]): pass\ndef f2(a={}): pass\ndef f3(a=[1]): pass\n', 'replace-flask-send-file': "import flask\nname = 'x'\nflask.send_file(name)\nflask.send_file('a/' + name)\nflask.send_file(name + '.txt')\n"}
 
 
 def _run(name, exclude, include):
@@ -26,6 +26,16 @@ def _run(name, exclude, include):
 
 
 BASE = {}
+# per-codemod site markers (default: the stripped source line); unused-imports re-flows the import statement, so its
+# sites are identified by the imported name
+MARKERS = {'unused-imports': {2: 'path', 4: 'getcwd'}}
+
+
+def _kept(name, L, src_lines, out):
+    m = MARKERS.get(name, {}).get(L)
+    if m is not None:
+        return m in out
+    return src_lines[L - 1].strip() in [l.strip() for l in out.split('\n')]
 
 
 def _base(name):
@@ -48,8 +58,7 @@ def _whole(name: str, n: int, include: bool) -> bool:
     src_lines = src.split("\n")
     ok = True
     for L in lines0:
-        site = src_lines[L - 1].strip()
-        kept = site in [l.strip() for l in out.split("\n")]
+        kept = _kept(name, L, src_lines, out)
         fixed_expected = (L == n) if include else (L != n)
         # a site that must be fixed no longer appears verbatim; a site that must be left alone still does
         ok = ok and (kept != fixed_expected)
@@ -186,9 +195,8 @@ def _verdict(name, n, include, out, lines, exc):
     src = SOURCES[name]
     out0, lines0 = _base(name)
     src_lines = src.split("\n")
-    out_lines = [l.strip() for l in out.split("\n")]
     for L in lines0:
-        kept = src_lines[L - 1].strip() in out_lines
+        kept = _kept(name, L, src_lines, out)
         fixed_expected = (L == n) if include else (L != n)
         if kept == fixed_expected:
             return "site on line %d %s" % (L, "was not fixed" if fixed_expected else "was rewritten although not permitted")
